@@ -290,6 +290,7 @@ func runWorker(shard, of int, tier string) {
 		})
 	})
 	part("d", func() {
+		enumHandshake(w.httpCase)
 		for _, sub := range subprotocols {
 			w.wsTree(sub, wsAlphabet(sub), wsDepth(tier))
 		}
@@ -461,8 +462,18 @@ func main() {
 		sigs = append(sigs, s)
 	}
 	sort.Strings(sigs)
+	ignoreKnown := false
+	for _, a := range os.Args {
+		if a == "--ignore-known" { // demonstration aid: report known findings as violations too
+			ignoreKnown = true
+		}
+	}
 	for _, s := range sigs {
-		c.Report(s, findings[s].What, findings[s].Replay)
+		sig := s
+		if ignoreKnown {
+			sig += " (known-findings file ignored)"
+		}
+		c.Report(sig, findings[s].What, findings[s].Replay)
 	}
 	// internal consistency of the (d) tree: executed + pruned == size of the sequence space
 	exhaustive := len(incomplete) == 0
@@ -473,7 +484,7 @@ func main() {
 	}
 	gotD := wsPruned
 	for k, v := range evals {
-		if strings.HasPrefix(k, "d:") {
+		if strings.HasPrefix(k, "d:WS/") {
 			gotD += v
 		}
 	}
@@ -507,11 +518,11 @@ func main() {
 		segs, parts, structLen = 4, 5, 5
 	}
 	c.Cov["bounds"] = map[string]any{
-		"a_json_shapes":        "every top-level JSON kind x 6 trailers, and all 7^5 objects assigning query/operationName/variables/extensions/headers one of absent,null,string,number,bool,array,object; transports POST, SSE, multipart-mixed, urlencoded (thorough also POST with Accept graphql-response+json) and websocket start/subscribe payload on both subprotocols",
-		"b_raw_bytes":          fmt.Sprintf("all byte strings of length <= 2 and all strings of length <= %d over %q, plus %d hand-picked mutated requests; as POST body, GET variables, GET extensions, raw GET query string, urlencoded body, application/graphql body", structLen, structAlphabet, len(extras)),
-		"c_multipart":          fmt.Sprintf("8 variable shapes x all map paths of <= %d segments over %q x {in-memory, spill-file}; 8 multi-file uploads x MaxUploadSize{default,L-1,L,L+1} x MaxMemory{default,1,L-1,L,L+1} x content-length{known,unknown}; all part sequences of length <= %d over {operations,map,file0,file1,unknown field,bad operations,bad map}; 11 operations x 17 map JSON shapes; every proper prefix of a valid body; 4 content-type variants", segs, pathSegs, parts),
-		"d_websocket":          fmt.Sprintf("all frame sequences of length <= %d over the %d/%d-symbol alphabets of graphql-ws / graphql-transport-ws (each client, server-only and unknown message type x payload absent,null,{},[],5,\"s\",valid; missing type; JSON non-object; non-JSON and empty text; binary garbage; binary JSON; ping control frame; close frame); sequences are not extended after the server closed", depth, len(wsAlphabet("graphql-ws")), len(wsAlphabet("graphql-transport-ws"))),
-		"workers":              nw,
+		"a_json_shapes": "every top-level JSON kind x 6 trailers, and all 7^5 objects assigning query/operationName/variables/extensions/headers one of absent,null,string,number,bool,array,object; transports POST, SSE, multipart-mixed, urlencoded (thorough also POST with Accept graphql-response+json) and websocket start/subscribe payload on both subprotocols",
+		"b_raw_bytes":   fmt.Sprintf("all byte strings of length <= 2 and all strings of length <= %d over %q, plus %d hand-picked mutated requests; as POST body, GET variables, GET extensions, raw GET query string, urlencoded body, application/graphql body", structLen, structAlphabet, len(extras)),
+		"c_multipart":   fmt.Sprintf("8 variable shapes x all map paths of <= %d segments over %q x {in-memory, spill-file}; 8 multi-file uploads x MaxUploadSize{default,L-1,L,L+1} x MaxMemory{default,1,L-1,L,L+1} x content-length{known,unknown}; all part sequences of length <= %d over {operations,map,file0,file1,unknown field,bad operations,bad map}; 11 operations x 17 map JSON shapes; every proper prefix of a valid body; 4 content-type variants", segs, pathSegs, parts),
+		"d_websocket":   fmt.Sprintf("all frame sequences of length <= %d over the %d/%d-symbol alphabets of graphql-ws / graphql-transport-ws (each client, server-only and unknown message type x payload absent,null,{},[],5,\"s\",valid; missing type; JSON non-object; non-JSON and empty text; binary garbage; binary JSON; ping control frame; close frame); sequences are not extended after the server closed", depth, len(wsAlphabet("graphql-ws")), len(wsAlphabet("graphql-transport-ws"))),
+		"workers":       nw,
 	}
 	c.Cov["evaluations_by_part"] = evals
 	c.Cov["expectation_kinds"] = expKinds
